@@ -20,7 +20,8 @@ RULE = ("every frame the library writes to the (fake) socket during: lifecycle h
         "handles and connection ids now and then from the ends of the 32-bit range: 0, 1, 0x80000000, 0xFFFFFFFF), status 0, options 0, exactly two items with exact item "
         "lengths, null address for SendRRData, connection address carrying the target's O->T id and sequence-count-first data for "
         "SendUnitData; three long-lived connections (CIP generic messages, SLC reads, Micro800 reads) issue > 66 000 connected messages each so "
-        "frames with every 16-bit sequence count and the wrap are observed; additionally each OS-level send() call must be exactly one frame. distinct = (command, request kind, payload length "
+        "frames with every 16-bit sequence count and the wrap are observed; additionally each OS-level send() call must be exactly one frame; the same histories on a socket with a random short-write schedule (one frame accepted in up to many "
+        "pieces) must put the identical byte stream on the wire; the UDP datagram of discover() is checked too (length field = bytes after the 24-byte header, status / options 0). distinct = (command, request kind, payload length "
         "class, scenario kind) of frames observed")
 ASSUMPTIONS = [
     "an unconnected request sent with session handle 0 after a failed registration is not judged ('zero only before registration')",
